@@ -186,12 +186,12 @@ func valueSet(typ string, f *fxInfo) []pval {
 	case "amount":
 		return []pval{pv("1", "1"), absent, pv("0.001", "0.001"), pv("0", "0"), pv("-1", "-1"), pv("1e3", "1e3"), pv("max", "9223372036854.775807"), pv("max+1-droplet", "9223372036854.775808"),
 			pv("1e400", "1e400"), pv("0.0001", "0.0001"), pv("empty", ""), pv("x", "x"), raw("number", "1"), raw("null", "null"),
-			{Class: "1e10000000", Val: "1e10000000", Danger: true}}
+			{Class: "1e10000000", Val: "1e10000000", Danger: true}, {Class: "1e-10000000", Val: "1e-10000000", Danger: true}, {Class: "1e-2000000000", Val: "1e-2000000000", Danger: true}}
 	case "hours":
 		return []pval{pv("1", "1"), absent, pv("0", "0"), pv("2^64-1", two64m1), pv("2^64", two64), pv("-1", "-1"), pv("x", "x"), raw("number", "1"), raw("null", "null")}
 	case "sharefactor":
-		return []pval{absent, pv("0.5", "0.5"), pv("0", "0"), pv("1", "1"), pv("1.5", "1.5"), pv("-1", "-1"), pv("x", "x"), raw("number", "0.5"), raw("null", "null"), pv("1e400", "1e400"),
-			{Class: "1e10000000", Val: "1e10000000", Danger: true}}
+		return []pval{absent, pv("0.5", "0.5"), pv("0", "0"), pv("1", "1"), pv("1.5", "1.5"), pv("-1", "-1"), pv("x", "x"), raw("number", "0.5"), raw("null", "null"), pv("1e400", "1e400"), pv("1e-400", "1e-400"),
+			{Class: "1e10000000", Val: "1e10000000", Danger: true}, {Class: "1e-10000000", Val: "1e-10000000", Danger: true}, {Class: "1e-2000000000", Val: "1e-2000000000", Danger: true}}
 	case "hstype":
 		return []pval{pv("manual", "manual"), absent, pv("auto", "auto"), pv("empty", ""), pv("bogus", "bogus"), raw("number", "1"), raw("null", "null")}
 	case "hsmode":
@@ -485,6 +485,7 @@ func c28Requests(g *apimodel.Golden, f *fxInfo, startID int) []c28Req {
 		for _, method := range methods {
 			ps := expandParams(rt, method, f)
 			seen := map[string]bool{}
+			force := false
 			emit := func(asg []pval) {
 				q, b, ct := buildRequest(rt, method, ps, asg)
 				key := q + "\x00" + b
@@ -504,7 +505,7 @@ func c28Requests(g *apimodel.Golden, f *fxInfo, startID int) []c28Req {
 					}
 				}
 				r.Single = off <= 1
-				if r.Danger && off > 1 {
+				if r.Danger && off > 1 && !force {
 					return // values that may exhaust the node are only tried alone (each needs its own sandboxed worker)
 				}
 				id++
@@ -539,6 +540,43 @@ func c28Requests(g *apimodel.Golden, f *fxInfo, startID int) []c28Req {
 							}
 						}
 					}
+				}
+			}
+			// a dangerous value that is only looked at in a particular mode is also tried in that mode: the share factor of a
+			// create-transaction request is compared only when hours_selection is auto/share
+			pi := func(name string) int {
+				for i, p := range ps {
+					if p.Name == name {
+						return i
+					}
+				}
+				return -1
+			}
+			pick := func(i int, class string) (pval, bool) {
+				for _, v := range ps[i].Vals {
+					if v.Class == class {
+						return v, true
+					}
+				}
+				return pval{}, false
+			}
+			if it, im, is := pi("hours_selection.type"), pi("hours_selection.mode"), pi("hours_selection.share_factor"); it >= 0 && im >= 0 && is >= 0 {
+				auto, ok1 := pick(it, "auto")
+				share, ok2 := pick(im, "share")
+				if ok1 && ok2 {
+					force = true
+					for _, v := range ps[is].Vals {
+						asg := append([]pval{}, base...)
+						asg[it], asg[im], asg[is] = auto, share, v
+						// auto mode forbids explicit hours on the destinations
+						if ih := pi("to[0].hours"); ih >= 0 {
+							if ab, ok := pick(ih, "absent"); ok {
+								asg[ih] = ab
+							}
+						}
+						emit(asg)
+					}
+					force = false
 				}
 			}
 		}
